@@ -211,8 +211,9 @@ pub fn model(lines: &[String], mode: i64, def_bank: u8, def_vol: i32) -> (MC, Ve
     }
     for l in lines {
         if let Some(m) = l.strip_prefix("!mode ") {
-            if let Ok(m) = m.trim().parse::<i64>() {
-                mode = m;
+            // a mode is spelled exactly 0, 1, 2 or 3; any other value is not a mode and changes nothing
+            if let Some(m) = ["0", "1", "2", "3"].iter().position(|x| *x == m.trim()) {
+                mode = m as i64;
             }
             accepted.push(false);
             continue;
